@@ -698,6 +698,31 @@ def top_items(bs):
     return out
 
 
+def first_witness_datum(tx):
+    """byte slice of the first element of witness-set entry 4 (plutus data) of a transaction, or None"""
+    its = top_items(tx)
+    if len(its) < 2:
+        return None
+    ws = its[1]
+    if not ws or ws[0] >> 5 != 5 or (ws[0] & 31) >= 24:
+        return None
+    i = 1
+    for _ in range(ws[0] & 31):
+        ke = item_end(ws, i)
+        ve = item_end(ws, ke)
+        if ws[i:ke] == b'\x04':
+            v = ws[ke:ve]
+            if v[:3] == b'\xd9\x01\x02':
+                v = v[3:]
+            if not v or v[0] >> 5 != 4:
+                return None
+            if v[0] == 0x9f or (v[0] & 31) in range(1, 24):
+                return bytes(v[1:item_end(v, 1)])
+            return None
+        i = ve
+    return None
+
+
 SPEC = dict(tx_size=32, datum_size=32, aux_size=32, key_size=28, nscript_size=28, pscript_size=28, rscript_size=28,
             pref_native=b'\x00', pref_v1=b'\x01', pref_v2=b'\x02', pref_v3=b'\x03', pref_raw=b'\x01', ext_cut=32,
             ntypes=[0, 1, 2, 3, 4, 5], fp_size=20, fp_hrp='asset', fp_policy_first=True)
@@ -1341,7 +1366,7 @@ def gen_seq(rng):
     return gen_seq_body(rng) if r < 0.55 else gen_seq_aux(rng) if r < 0.7 else gen_seq_native(rng) if r < 0.85 else gen_seq_datum(rng)
 
 
-MIX = [('seq', 220), ('tx', 260), ('datum', 220), ('aux', 140), ('build', 70), ('key', 130), ('native', 170), ('plutus', 110),
+MIX = [('seq', 220), ('tx', 260), ('datum', 220), ('aux', 140), ('build', 70), ('outdatum', 60), ('key', 130), ('native', 170), ('plutus', 110),
        ('addr', 90), ('finger', 80), ('gate', 260)]
 
 
@@ -1358,6 +1383,10 @@ def gen_case(rng, kind):
         return a
     if kind == 'build':
         return {'k': 'build', 'aux': rand_aux(rng) if rng.random() < 0.75 else None, 'n_out': rng.choice([1, 2])}
+    if kind == 'outdatum':
+        f1, d1 = rand_datum(rng)
+        f2, d2 = rand_datum(rng)
+        return {'k': 'outdatum', 'route': rng.choice([0, 1, 1, 2, 2]), 'form1': f1, 'd1': d1, 'form2': f2, 'd2': d2}
     if kind == 'key':
         return gen_key(rng)
     if kind == 'native':
@@ -1469,6 +1498,12 @@ def table_and_case(c, r, g):
         for sl in its[:1]:
             T.add((32, sl)); T.add((g['tx_size'], sl))
         lit = f'KBuild {C.copt(hx(r["aux_in"]) if r["aux_in"] else None)} {hx(r["tx"])} {hx(r["id_tx"])}'
+    elif k == 'outdatum':
+        wd = first_witness_datum(fb(r['tx']))
+        if wd is None or r.get('d2') is None:
+            raise ValueError('outdatum: no datum in the witness set / datum without to_cbor')
+        T.add((32, wd))
+        lit = f'KOutDatum {hx(r["tx"])} {hx(wd.hex())} {hx(r["d2"])}'
     elif k == 'key':
         p, nx = fb(r['payload']), fb(r['nx_payload'])
         for m in (p, p[:32], p[:g['ext_cut']], nx, nx[:32]):
@@ -1667,7 +1702,7 @@ def skip_reason(c, r):
         if r.get('copied') and r['seq_err'] == 'ValueError' and 'NonEmptyOrderedSet cannot be empty' in r.get('detail', ''):
             return 'seq:copy-defect(OrderedSet)'      # copy.deepcopy drops the elements of an OrderedSet (reported)
         return None
-    if c['k'] == 'build' and 'err' in r:
+    if c['k'] in ('build', 'outdatum') and 'err' in r:
         return 'build-error:' + r['err']
     return None
 
